@@ -44,7 +44,11 @@ def nested(depth, opener="(", closer=")", core="num", close=True):
 
 
 NESTINGS = [("(", ")", "num"), ("[", "]", "num"), ("{ 'p ", " }", "num"), ("<", ">", "num"), ("{ 'p [", "] }", "num"),
-            ("rec x ", "", "num"), ("'p ", "", "num")]
+            ("rec x ", "", "num"), ("'p ", "", "num"),
+            # nesting with a sibling after the nested part: a later sibling that contains a repetition (a two-segment path, a
+            # property list, an application) must not make the earlier one be parsed again
+            ("<status=", ", media=/a/b>", "200"), ("<status=", ", media=/a/b, { 'x f a b }>", "200"), ("{ 'p ", ", 'q /a/b }", "num"),
+            ("[f ", " /a/b c]", "num"), ("(", " :: /a/b on get -> <>)", "num"), ("{ 'p (", " | { 'a num, 'b str }) }", "num")]
 
 
 def mutate_text(rng, src):
